@@ -44,8 +44,15 @@ func (p *Processor) NotifyRecharge(ueId string, rg int32) {
 		return
 	}
 
-	// If it is previosly set to debit mode due to quota exhausted, need to reverse to the reserve mode
-	ue.RatingType[rg] = charging_datatype.REQ_SUBTYPE_RESERVE
+	// The rating type and the notification URI are shared with the charging requests of this UE
+	notifyUri := func() string {
+		ue.CULock.Lock()
+		defer ue.CULock.Unlock()
+
+		// If it is previosly set to debit mode due to quota exhausted, need to reverse to the reserve mode
+		ue.RatingType[rg] = charging_datatype.REQ_SUBTYPE_RESERVE
+		return ue.NotifyUri
+	}()
 	reauthorizationDetails = append(reauthorizationDetails, models.ReauthorizationDetails{
 		RatingGroup: rg,
 	})
@@ -54,7 +61,7 @@ func (p *Processor) NotifyRecharge(ueId string, rg int32) {
 		ReauthorizationDetails: reauthorizationDetails,
 	}
 
-	p.SendChargingNotification(ue.NotifyUri, notifyRequest)
+	p.SendChargingNotification(notifyUri, notifyRequest)
 }
 
 func (p *Processor) SendChargingNotification(notifyUri string, notifyRequest models.ChargingNotifyRequest) {
